@@ -1,7 +1,7 @@
 (** dcmstack main: no hidden state, the API arguments are the stated functions of the options,
     invocations in one process are independent. *)
 From Coq Require Import List Bool Arith ZArith NArith Lia.
-From DV Require Import Common.Res Common.Str Common.PyNum Filter.Model Generated.T_cli Cli.Model Cli.Spec Cli.ProofsNames.
+From DV Require Import Common.Res Common.Str Common.PyNum Filter.Model Filter.Proofs Generated.T_cli Cli.Model Cli.Spec Cli.ProofsNames.
 Import ListNotations.
 Local Open Scope nat_scope.
 
@@ -183,6 +183,19 @@ Proof.
   split; [exact Hfo|]. split; [exact Hw|]. split; [exact F5|]. split; [exact Hp|].
   split; [exists src; rewrite Ed; split; [exact Hsrc|]; split; [exact F6|]; split; [exact Hg | exact F10]|].
   split; [exact F7|]. split; [exact F8|]. split; [exact F9|]. exact F11.
+Qed.
+
+(** the filter every stack is built with is exclude-unless-included over defaults plus options *)
+Lemma dcmstack_filter_sem (matches : str -> str -> bool) g a i ds e d f key :
+  snd (dcmstack_main g a i) = ORun ds e -> In d ds -> In f (do_files d) ->
+  g_excl g <> [] -> g_incl g <> [] ->
+  (filter_of matches (fo_stack f) key = true <->
+   (exists p, (In p (g_excl g) \/ In p (a_exclude_regex a)) /\ matches p key = true) /\
+   ~ (exists p, (In p (g_incl g) \/ In p (a_include_regex a)) /\ matches p key = true)).
+Proof.
+  intros H Hd Hf He Hi.
+  destruct (dcmstack_args g a i ds e d f H Hd Hf) as [_ [_ [Hfil _]]]. rewrite Hfil.
+  exact (Filter.Proofs.cli_filter_sem matches _ _ _ _ key He Hi).
 Qed.
 
 (** the other exits read the module state but write nothing *)
